@@ -67,7 +67,7 @@ def sweep_scenarios(quick, seed):
     # a write that finds the entry expired, while a reader stores an extended deadline into the node being replaced
     k = 0
     for ttl in (3 * TICK, 10 * TICK):
-        for op in ("sia.setifabsent", "sia.set"):
+        for op in ("sia.setifabsent", "sia.set", "sia.setgate", "sia.invgate", "sia.cmpgate"):
             for jump in (TICK + 7, 2 * TICK):
                 k += 1
                 if quick and k % 2 != seed % 2:
@@ -118,7 +118,7 @@ def read_race_half(prop, tier, mc_out=None):
     runs), judged by SweepHist.tla; returns (scenarios, [(pred, detail, path)] owned by `prop`, broken)."""
     seed = vlib.seed()
     if prop == "C06":
-        scs = [sc for sc in sweep_scenarios(False, seed) if sc["op"].startswith("gate.")]
+        scs = [sc for sc in sweep_scenarios(False, seed) if sc["op"].startswith(("gate.", "sia."))]
     elif prop == "C05":
         scs = [sc for sc in sweep_scenarios(False, seed) if sc["op"].startswith("sia.")]
     elif prop == "C08":
